@@ -18,6 +18,8 @@ CLAIMED = {
          "Lean proof of the decision logic + exhaustive/differential correspondence"),
  "C16": ("proof", "Lean: allowed => scheme/https/rebind(no listed address class, by range arithmetic)/deny/allow conditions; every redirect hop checked; denied sends nothing; tie: URL x resolver x policy differential through real checkEgressPolicy, address-class edges, redirect chains through the real HTTPDeliverer", "§7 C16",
          "Lean proof of the decision logic + differential correspondence"),
+ "C07": ("proof", "Lean: decode(encode b) = b for every byte list (chunk induction, omega), stored headers stem only from non-sensitive received names (canonical name, values comma-joined) and never exceed max_headers; tie: byte-level differential through the real ingress handler / Admin publish -> memory and SQLite (with restart) -> real pull HTTP (base64 checked by the Lean codec), worker gRPC and HTTPDeliverer, incl. bodies around max_body with and without Content-Length and a redelivery", "§7 C07",
+         "Lean proof of codec and header rules + byte-level differential"),
  "C08": ("proof", "Lean (for every keyed function mac): HMAC acceptance => all header/timestamp/tolerance/nonce/signature-under-a-secret-valid-at-the-signed-time conditions; every missing condition rejects; Basic exact; forward-auth table; any denial precedes the enqueue; a 202 implies every declared authenticator accepted; tie: generated signed requests and mutations through the real ingress handler + runtime state, signatures re-verified by a Lean SHA-256/HMAC", "§7 C08",
          "Lean proof of the verifier model + differential correspondence with independent HMAC"),
  "C09": ("proof", "Lean: nonce-cache invariant - an accepted nonce is cached with expiry ts+tol, stays cached while live (including the boundary instant), and every later request carrying it while the window is open is rejected, over arbitrary histories with a monotone clock; tie: request sequences with boundary arrival times, verbatim replays and configuration reloads through the real handler", "§7 C09",
